@@ -221,6 +221,39 @@ Section Proofs.
     rewrite P1. rewrite stream_glue by assumption. now rewrite P2.
   Qed.
 
+  (* ---- gzip_uncompress ---- *)
+  Notation gzip_uncompress := (gzip_uncompress zst zinit zstep zeof zfl).
+
+  Lemma gzip_uncompress_full data : gzip_uncompress data false = whole zst zinit zstep zeof zfl W31 data.
+  Proof.
+    unfold DecompGlue.gzip_uncompress, Decomp.whole, Decomp.zflush.
+    destruct (zfeed zst zstep (zinit W31) data) as [[z o]|]; [|reflexivity]. destruct (zeof z); reflexivity.
+  Qed.
+
+  (* on a prefix (truncated=True) it returns a prefix of what the longer buffer
+     gives, and an error on the prefix is an error on every extension *)
+  Lemma gzip_uncompress_prefix a b :
+    match gzip_uncompress a true with
+    | None => gzip_uncompress (a ++ b) true = None
+    | Some o1 => gzip_uncompress (a ++ b) true = None
+                 \/ exists o2, gzip_uncompress (a ++ b) true = Some (o1 ++ o2)
+    end.
+  Proof.
+    unfold DecompGlue.gzip_uncompress. rewrite (zfeed_app zst zstep).
+    destruct (zfeed zst zstep (zinit W31) a) as [[z1 o1]|]; [|reflexivity].
+    destruct (zfeed zst zstep z1 b) as [[z2 o2]|]; [right; now exists o2 | now left].
+  Qed.
+
+  Theorem gzip_uncompress_spec data a b :
+    gzip_uncompress data false = whole zst zinit zstep zeof zfl W31 data
+    /\ match gzip_uncompress a true with
+       | None => gzip_uncompress (a ++ b) true = None
+       | Some o1 => gzip_uncompress (a ++ b) true = None
+                    \/ exists o2, gzip_uncompress (a ++ b) true = Some (o1 ++ o2)
+       end.
+  Proof. split; [apply gzip_uncompress_full | apply gzip_uncompress_prefix]. Qed.
+
+
   Theorem stream_glue_wire (o : oracle) (raw : bool) (ce : list N) :
     (forall wire,
         gres_view (read_body o raw ce SClose wire) = ref_view (reference (select_kind raw ce) wire))
